@@ -276,6 +276,14 @@ def fetch_cases(tier, seed, codecs):
             batches = sorted(data + [cb], key=lambda b: b["base"])
             for frm in ([9] if pos == 0 else [10, 11]):
                 add("client", copy.deepcopy(batches), frm, ["control"])
+    # a control batch as the ONLY batch of a response (fetching at the offset of a transaction marker at the log end), two
+    # markers in a row, a marker as the last batch
+    for form in ["v2:0", "v2:%d" % cz[0]]:
+        add("client", [mkbatch("v2:0", [ctl(10)], control=True)], 10, ["control"])
+        add("client", [mkbatch(form, records(2, 10, 1)), mkbatch("v2:0", [ctl(12)], control=True)], 12, ["control"])
+        add("client", [mkbatch(form, records(2, 10, 1)), mkbatch("v2:0", [ctl(12)], control=True)], 10, ["control"])
+        add("client", [mkbatch("v2:0", [ctl(10)], control=True), mkbatch("v2:0", [ctl(11)], control=True)], 10, ["control"])
+        add("client", [mkbatch("v2:0", [ctl(10)], control=True), mkbatch("v2:0", [ctl(11)], control=True), mkbatch(form, records(1, 12, 3))], 11, ["control"])
     # a batch whose checksum does not match (Client.Fetch surfaces nothing of it)
     for form in ["v1", "v2:0"] + ["v1w:%d" % c for c in cz] + ["v2:%d" % c for c in cz]:
         for pos in (0, 1, 2):
